@@ -57,6 +57,9 @@ def tree_scopes(tier, updates=1, ro=1, fill=1, growth=True, logs=True, rnd=True)
         S("tree", type="T8idtagu8", mode="bfs", slots=3, cap=3, keys="0,1,2,3", updates=0, ro=0, fill=0, nodriver=1),
         S("tree", type="T32idtagu8", mode="bfs", slots=3, cap=3, keys="0,1,2,3", updates=updates, ro=ro, fill=0, nodriver=1),
     ]
+    # odd record sizes x every small slot count
+    for n in range(0, 11):
+        q.append(S("tree", type="T8b3b12", mode="random", slots=n, cap=n, keys=keys(2 * n + 3), histories=2, length=24 + 6 * n, fill=fill))
     if growth:
         q += [
             S("tree", type="T8u8u8", mode="bfs", slots=2, cap=2, max_slots=4, keys=keys(5), updates=0, ro=ro, fill=fill),
@@ -161,6 +164,8 @@ def hset_scopes(tier, fill=1, rnd=True):
         S("hset", type="HTicket", mode="bfs", slots=3, cap=3, vals=keys(4), fill=0, nodriver=1),
         S("hset", type="HBps", mode="bfs", slots=3, cap=3, vals="0,1,2,10000", fill=fill, nodriver=1),
     ]
+    for n in range(0, 11):
+        q.append(S("hset", type="HB12", mode="random", slots=n, cap=n, vals=keys(2 * n + 3), histories=2, length=24 + 6 * n, fill=fill))
     if rnd:
         q += [
             S("hset", type="HU64", mode="random", slots=32, cap=32, vals=keys(80), histories=100, length=400, fill=fill),
@@ -197,6 +202,10 @@ def aset_scopes(tier, fill=1, rnd=True, logs=True):
         S("aset", type="A8b3", mode="bfs", slots=3, max_slots=4, vals=keys(5, 1), fill=fill),
         S("aset", type="A16b12", mode="bfs", slots=3, vals=keys(4, 1), fill=fill),
     ]
+    # odd element sizes x every small slot count (byte lengths with every combination of low bits)
+    for n in range(0, 11):
+        q.append(S("aset", type="A8b3", mode="random", slots=n, vals=keys(2 * n + 3, 1), histories=2, length=24 + 6 * n, fill=fill))
+        q.append(S("aset", type="A16b12", mode="random", slots=n, vals=keys(2 * n + 3, 1), histories=2, length=24 + 6 * n, fill=fill))
     if logs:
         q += [
             S("aset", type="A16log", mode="bfs", slots=5, vals=keys(6, 1), fill=0),
